@@ -181,7 +181,7 @@ pub fn mutated_input(ctx: &Ctx, bytes: &[u8]) -> (String, &'static str) {
     }
 }
 
-fn valid_entry(p: &fun::syntax::program::CheckedProgram) -> bool {
+pub fn valid_entry(p: &fun::syntax::program::CheckedProgram) -> bool {
     use fun::syntax::context::Chirality;
     use fun::syntax::types::Ty;
     p.defs.iter().any(|d| {
@@ -406,7 +406,7 @@ pub fn run_in_child(ctx: &Ctx, text: &str) -> CaseResult {
 pub fn check(ctx: &Ctx) -> i32 {
     let start = Instant::now();
     let mut ev = Evidence::default();
-    ev.rule = "inputs: token-level mutations (insert/delete/replace/swap from the lexer's vocabulary including combined tokens and oversized numbers), byte-level mutations, extreme literals, nesting up to depth 130 (quick) / 260 (thorough) of five nesting forms, entry-point variations (no main, 0..7 parameters, non-integer parameters/result), and unmodified generated programs; oracle: parse_module and Program::check return Ok or Err (no panic); accepted programs with a valid entry point pass fun2core, focusing, shrinking, linearization and all three code generators without a panic other than the two documented capacity assertions (and the RISC-V backend's documented `print` limitation). Non-trivial: the input parses (reaches the type checker); distinct by hash of the text. Second domain (declaration stress): generated polymorphic data/codata declarations whose fields mention the declared types at arbitrary type arguments up to depth 3 (non-regular and mutually recursive instantiation), used by a small program; each text is compiled in a child process on a 2 MB stack (the default thread stack, on which the repository's own tests run) under a 6 GB address-space cap, and a process that dies (signal, abort, stack exhaustion on an input of a few hundred bytes) is a violation, a time-out or an exhausted memory budget is inconclusive (counted as discarded). thorough additionally replays the corpus of the libFuzzer target (fuzz/).".into();
+    ev.rule = "inputs: token-level mutations (insert/delete/replace/swap from the lexer's vocabulary including combined tokens and oversized numbers), byte-level mutations, extreme literals, nesting up to depth 130 (quick) / 260 (thorough) of five nesting forms, entry-point variations (no main, 0..7 parameters, non-integer parameters/result), and unmodified generated programs; oracle: parse_module and Program::check return Ok or Err (no panic); accepted programs with a valid entry point pass fun2core, focusing, shrinking, linearization and all three code generators without a panic other than the two documented capacity assertions (and the RISC-V backend's documented `print` limitation). Non-trivial: the input parses (reaches the type checker); distinct by hash of the text. Second domain (declaration stress): generated polymorphic data/codata declarations whose fields mention the declared types at arbitrary type arguments up to depth 3 (non-regular and mutually recursive instantiation), used by a small program; each text is compiled in a child process on a 2 MB stack (the default thread stack, on which the repository's own tests run) under a 6 GB address-space cap, and a process that dies (signal, abort, stack exhaustion on an input of a few hundred bytes) is a violation, a time-out or an exhausted memory budget is inconclusive (counted as discarded). Third domain (binary): byte strings that a text-level harness cannot express (invalid UTF-8, NUL bytes, byte-order mark, CR LF, multi-byte characters, also truncated) around mutated programs are given as files to the real `scc check` and, when accepted with a valid entry point, to `scc codegen x86-64|rv64`; the exit status must be 0 or 1 (a panic exits with 101, an abort by signal). thorough additionally replays the corpus of the libFuzzer target (fuzz/).".into();
     ev.assumptions = vec!["recursion depth of the front end is bounded by the nesting depth generated (stack exhaustion is outside the property's 'within stack limits')".into()];
     let mut report = Report { violations: vec![], infra_errors: vec![] };
     for k in ctx.known.iter().filter(|k| k.property == "C18" && k.status == "known") {
@@ -437,6 +437,40 @@ pub fn check(ctx: &Ctx) -> i32 {
         if let Some((bytes, f)) = out2.failure {
             eprintln!("{}", f.summary);
             report.violations.push(write_replay(ctx, "decls", &bytes, &f));
+        }
+    }
+    // byte strings through the real binary (`scc check`, `scc codegen`): exit status 0/1 only
+    if report.violations.is_empty() {
+        match super::cli::scc_exe(ctx) {
+            None => report.infra_errors.push("the scc binary is not built (harness/target/scc); run ./check, not the harness directly".into()),
+            Some(exe) => {
+                // saved inputs first (regression tier)
+                if let Ok(rd) = std::fs::read_dir(ctx.root.join("regressions").join("C18-cli")) {
+                    let mut files: Vec<_> = rd.flatten().map(|e| e.path()).collect();
+                    files.sort();
+                    for f in files {
+                        let Ok(input) = std::fs::read(&f) else { continue };
+                        let r = super::cli::c18_cli_case(ctx, &exe, &input, "cli: saved input");
+                        if let CaseResult::Fail(fl) = &r {
+                            if report.violations.is_empty() {
+                                eprintln!("{}: {}", f.display(), fl.summary);
+                                report.violations.push(write_replay_with(ctx, "clifile", &[], fl, json!({"file": f.display().to_string()})));
+                            }
+                        }
+                        ev.absorb(&r);
+                    }
+                }
+                let n3 = ctx.tier.pick(400, 20000);
+                let run3 = |b: &[u8]| {
+                    let (input, kind) = super::cli::byte_input(ctx, b);
+                    super::cli::c18_cli_case(ctx, &exe, &input, kind)
+                };
+                let out3 = drive(&mut ev, ctx.seed, 2018, n3, 60, 1200, 40, &run3);
+                if let Some((bytes, f)) = out3.failure {
+                    eprintln!("{}", f.summary);
+                    report.violations.push(write_replay(ctx, "cli", &bytes, &f));
+                }
+            }
         }
     }
     // coverage-guided campaign (thorough only)
@@ -501,6 +535,16 @@ pub fn check(ctx: &Ctx) -> i32 {
 pub fn replay(ctx: &Ctx, sub: &str, bytes: &[u8], case: &serde_json::Value) -> CaseResult {
     if sub.starts_with("text") {
         return run_text(case["source"].as_str().unwrap_or(""), "replay");
+    }
+    if sub.starts_with("clifile") {
+        let Some(exe) = super::cli::scc_exe(ctx) else { return CaseResult::Discard("infra: scc binary not built".into()) };
+        let input = std::fs::read(case["file"].as_str().unwrap_or("")).unwrap_or_default();
+        return super::cli::c18_cli_case(ctx, &exe, &input, "cli: saved input");
+    }
+    if sub.starts_with("cli") {
+        let Some(exe) = super::cli::scc_exe(ctx) else { return CaseResult::Discard("infra: scc binary not built".into()) };
+        let (input, kind) = super::cli::byte_input(ctx, bytes);
+        return super::cli::c18_cli_case(ctx, &exe, &input, kind);
     }
     if sub.starts_with("decls") {
         return run_in_child(ctx, &decl_stress(bytes));
